@@ -276,3 +276,42 @@ fn eq_compares_columns_in_later_identifier_bytes() {
     }
     assert!(unsafe { c.component_eq(&d) } == (v[0] == v[2] && v[1] == v[3]), "C16: equal iff every component value is equal (second identifier byte only)");
 }
+
+// ------------------------------------------------------------------ Entries: filters over the declared entry views (C03)
+use crate::query::view as qview;
+
+fn entry_filter<'a, V, F, I>(indices: &V::Indices, id: IdentifierRef<V3>) -> bool
+where
+    V: qview::ContainsFilter<'a, F, I>,
+{
+    unsafe { V::filter(indices, id) }
+}
+
+type EV<'a> = Views!(&'a VA, Option<&'a mut VB>, &'a mut VC);
+
+macro_rules! entry_filter_harness {
+    ($name:ident, $filter:ty, |$b:ident| $spec:expr) => {
+        #[kani::proof]
+        #[kani::unwind(5)]
+        fn $name() {
+            let $b: u8 = kani::any();
+            kani::assume($b < 8);
+            let id = unsafe { Identifier::<V3>::new(vec![$b]) };
+            // registry positions of the entry views (&VA, Option<&mut VB>, &mut VC)
+            let indices = (0usize, (1usize, (2usize, qview::Null)));
+            let got = entry_filter::<EV<'static>, $filter, _>(&indices, unsafe { id.as_ref() });
+            assert!(got == $spec, "C03: an Entries sub-query matches iff the entity's component set satisfies the filter");
+        }
+    };
+}
+entry_filter_harness!(entry_filter_has_ref, filter::Has<VA>, |b| bit(b, 0));
+entry_filter_harness!(entry_filter_has_optional_mut, filter::Has<VB>, |b| bit(b, 1));
+entry_filter_harness!(entry_filter_has_mut, filter::Has<VC>, |b| bit(b, 2));
+entry_filter_harness!(entry_filter_not_has_optional_mut, filter::Not<filter::Has<VB>>, |b| !bit(b, 1));
+entry_filter_harness!(entry_filter_and, filter::And<filter::Has<VB>, filter::Has<VC>>, |b| bit(b, 1) && bit(b, 2));
+entry_filter_harness!(entry_filter_or, filter::Or<filter::Has<VA>, filter::Has<VB>>, |b| bit(b, 0) || bit(b, 1));
+entry_filter_harness!(entry_filter_none, filter::None, |b| true);
+entry_filter_harness!(entry_filter_subview_ref_of_mut, &'static VC, |b| bit(b, 2));
+entry_filter_harness!(entry_filter_subview_ref_of_optional, &'static VB, |b| bit(b, 1));
+entry_filter_harness!(entry_filter_subview_optional, Option<&'static VB>, |b| true);
+entry_filter_harness!(entry_filter_subviews_list, Views!(&'static VA, &'static mut VC), |b| bit(b, 0) && bit(b, 2));
